@@ -537,3 +537,42 @@ def c05_1c(run):
     if not n_ok:
         raise Inconclusive('vacuity')
     run.require_reached(*run.cur.reach)
+
+
+# ----------------------------------------------------------------------------------------------------------------- C05-4
+@obligation('C05', 'C05-4 update_state_for_new_round: the working state becomes a fresh delta on the latest COMMITTED snapshot and the execution-state machine is reset to Unset, whatever they were before')
+def c05_4(run):
+    def h_snapshot(ctx):
+        s = Obj('Snapshot', kind='opaque'); s.attrs['ident'] = 'latest_committed_snapshot'
+        ctx.st.log.append(('latest_snapshot',))
+        return [(None, s)]
+
+    def h_delta(ctx):
+        d = Obj('StateDelta', kind='opaque'); d.attrs['on'] = ctx.ex.deref_val(ctx.st, ctx.args[0])
+        return [(None, d)]
+    hooks = [(re.compile(r'Storage::latest_snapshot$'), h_snapshot), (re.compile(r'^(cnidarium::)?StateDelta::<.*>::new$'), h_delta)]
+    ex = loader.load(['astria-sequencer'], scalar_types=SCALARS, dep_adts=['tendermint'], hooks=hooks)
+    cands = [n for n in ex.fns if n.endswith('::update_state_for_new_round') and 'closure' not in n and ex.impl_self(n) == (None, 'App')]
+    if len(cands) != 1:
+        raise Inconclusive(f'App::update_state_for_new_round not found: {cands}')
+    run.bound(pre_states='all 6 ExecutionState variants with symbolic payloads; arbitrary previous working state')
+    n = 0
+    for state in STATES:
+        m, _, _ = machine(ex, state)
+        old = Obj('Arc<StateDelta<Snapshot>>', kind='arc'); old.attrs['ident'] = 'previous_working_state'
+        app = B.struct(ex, 'app::App', execution_state=m, state=old)
+        for i, p in enumerate(run.explore(ex, ex.start(cands[0], [B.cell(app), B.cell(Obj('Storage', kind='opaque'))]), allow_havoc=DEFAULT_CTORS)):
+            lab = f'[{state}, path {i}]'
+            if p.kind != 'return':
+                run.prove(f'no panic {lab}', p.pc, z3.BoolVal(False), detail=p.info); continue
+            n += 1
+            post = ex.read(p, p.roots['args'][0].loc)
+            stv = ex.deref_val(p, B.fld(ex, p, post, 'state'))
+            inner = ex.deref_val(p, stv.fields.get(('in', 0))) if isinstance(stv, Obj) and stv.kind == 'arc' else stv
+            on = inner.attrs.get('on') if isinstance(inner, Obj) else None
+            es = post_state(ex, p) if False else ex.deref_val(p, ex.deref_val(p, B.fld(ex, p, post, 'execution_state')).fields[(None, 0)])
+            run.prove(f'working state = fresh delta on the latest committed snapshot; machine = Unset {lab}', p.pc,
+                      z3.BoolVal(isinstance(on, Obj) and on.attrs.get('ident') == 'latest_committed_snapshot' and stv.attrs.get('ident') != 'previous_working_state' and es.discr == 'Unset'))
+    if n < len(STATES):
+        raise Inconclusive('vacuity')
+    run.require_reached(*run.cur.reach)
